@@ -27,6 +27,9 @@ def main():
             d = os.path.join(SEEDED, name)
             meta_p = os.path.join(d, "meta.json")
             meta = json.load(open(meta_p)) if os.path.exists(meta_p) else {}
+            if meta.get("obsolete"):
+                summary.append((name, "OBSOLETE", meta["obsolete"][:120]))
+                continue
             props = meta.get("checks") or [name.split("-")[0]]
             r = sh(f"git -C /repo apply {d}/patch.diff")
             if r.returncode != 0:
